@@ -53,6 +53,7 @@ type Replay struct {
 	PSeed uint64     `json:"pseed"`            // parameters are drawn from this seed relative to the observed layout ...
 	P     *Params    `json:"params,omitempty"` // ... unless given explicitly (corpus cases)
 	Stmt  string     `json:"stmt,omitempty"`   // informational: the statement that was executed
+	W     int        `json:"w,omitempty"`      // race: events the writer appends when deleteJournal asks for the lock
 }
 
 type ChunkObs struct {
@@ -84,7 +85,10 @@ const deadline = 30 * time.Second
 type runner struct {
 	srv *Server
 	ctx context.Context
+	dec *tiDecor
 }
+
+func atomicNext() int64 { return atomic.AddInt64(&caseCounter, 1) }
 
 func tagsOf(vc int, i int, ps PartSpec) string {
 	return fmt.Sprintf("vcase=%d,grp=%s,p=%d", vc, ps.Grp, i)
@@ -526,7 +530,7 @@ func gState(parts []PartSpec, obs []PartObs) string {
 
 // ---------------------------------------------------------------- main
 
-const rule = "stores of 1-4 partitions with 0-6 chunks (MaxChunkSize 100, chunk sizes 100-170 bytes), matching and non-matching source tags, empty partitions, held and exclusively locked partitions, parked readers; MINSIZE/MAXSIZE/BEFORE/MAXDBSIZE each absent or drawn from the values at which a guard of the observed layout flips (below/equal/above a suffix size, a chunk's newest timestamp, the database size); every case runs DRYRUN and then the real statement (two model evaluations). Non-trivial: the real run removed at least one chunk or partition, or a parameter was given while a selected partition held data (a guard is the reason nothing went)."
+const rule = "race stream: one partition, a writer appends 0-3 events (newer than BEFORE) exactly when deleteJournal asks for the exclusive lock (the tag index seen by the partition service is decorated), non-trivial iff deleteJournal was reached; grid stream: stores of 1-4 partitions with 0-6 chunks (MaxChunkSize 100, chunk sizes 100-170 bytes), matching and non-matching source tags, empty partitions, held and exclusively locked partitions, parked readers; MINSIZE/MAXSIZE/BEFORE/MAXDBSIZE each absent or drawn from the values at which a guard of the observed layout flips (below/equal/above a suffix size, a chunk's newest timestamp, the database size); every case runs DRYRUN and then the real statement (two model evaluations). Non-trivial: the real run removed at least one chunk or partition, or a parameter was given while a selected partition held data (a guard is the reason nothing went)."
 
 type job struct {
 	rp     Replay
@@ -551,6 +555,10 @@ func main() {
 			for i := 0; i < n; i++ {
 				r := root.Fork()
 				jobs = append(jobs, job{genCase(r), "grid"})
+			}
+			for i := 0; i < c.N(40); i++ {
+				r := root.Fork()
+				jobs = append(jobs, job{genRace(r), "race"})
 			}
 		}
 		nw := 8
@@ -582,6 +590,7 @@ func main() {
 				}
 				defer srv.Stop()
 				r := &runner{srv: srv, ctx: context.Background()}
+				r.decorate()
 				for {
 					mu.Lock()
 					i := next
@@ -610,6 +619,9 @@ func main() {
 
 func mkCases(r *runner, j job) ([]Case, error) {
 	rp := j.rp
+	if rp.Kind == "race" {
+		return r.runRace(rp, j.stream)
+	}
 	o, err := r.runCase(&rp)
 	if err != nil {
 		return nil, err
